@@ -444,7 +444,14 @@ where
     }
 
     async fn read_root(file: &File, root_offset: u64) -> Result<BytesMut> {
-        let buf_size = std::cmp::min((file.size() - root_offset) as usize, BLOCK_SIZE);
+        // a damaged file may place the root behind its own end
+        let rest = file.size().checked_sub(root_offset).ok_or_else(|| {
+            IOError::new(
+                IOErrorKind::UnexpectedEof,
+                "root offset is behind the end of the index file",
+            )
+        })?;
+        let buf_size = std::cmp::min(rest as usize, BLOCK_SIZE);
         let mut buf = BytesMut::zeroed(BLOCK_SIZE);
         buf.resize(buf_size, 0);
         let mut buf = file.read_exact_at(buf, root_offset).await?;
